@@ -161,4 +161,14 @@ def sshClientConnect (known : Known) (presented : Key) (policyAccepts : Bool) : 
     | some k => if k = presented then .authenticate else .badHostKey
     | none => .badHostKey
 
+/-- the two stores of SSHClient: `_system_host_keys` (load_system_host_keys) is consulted first; only when it has
+no entry at all for the name is `_host_keys` (load_host_keys / get_host_keys) consulted -/
+def effectiveKnown (system user : Known) : Known :=
+  match system with
+  | some ks => some ks
+  | none => user
+
+def sshClientConnect2 (system user : Known) (presented : Key) (policyAccepts : Bool) : Outcome :=
+  sshClientConnect (effectiveKnown system user) presented policyAccepts
+
 end PV.ClientGuard
